@@ -674,6 +674,8 @@ struct Tally {
     nontrivial: usize,
     lost: usize,
     samples: Vec<Value>,
+    /// how often each kind of outcome of the specification was exercised
+    kinds: std::collections::BTreeMap<String, usize>,
 }
 
 fn step_json(c: &[String], o: &Obs) -> Value {
@@ -753,7 +755,7 @@ fn replay(args: &[String]) {
     let t = tally.lock().unwrap();
     let mut out = open_out(args);
     writeln!(out, "{}", json!({"sys": sys, "states": t.states, "cases": t.cases, "exact": t.exact, "to_judge": t.to_judge,
-        "open_text": t.open_text, "unspec": t.unspec, "nontrivial": t.nontrivial, "lost": t.lost, "samples": t.samples}))
+        "open_text": t.open_text, "unspec": t.unspec, "nontrivial": t.nontrivial, "lost": t.lost, "samples": t.samples, "outcome_kinds": t.kinds}))
     .unwrap();
 }
 
@@ -770,6 +772,30 @@ fn replay_state(sys: &str, plat: &Value, line: &Value, judge: &Mutex<Option<std:
             continue;
         }
         entries.push((k, cmds_of(&e["c"])));
+    }
+    let mut kinds: std::collections::BTreeMap<String, usize> = Default::default();
+    for (k, c) in &entries {
+        let alts = fan[*k]["alts"].as_array().cloned().unwrap_or_default();
+        if alts.len() > 1 {
+            *kinds.entry("(entries with two allowed alternatives)".into()).or_default() += 1;
+        }
+        if let Some(a) = alts.first() {
+            for (j, cmd) in c.iter().enumerate() {
+                let (st, text) = (a["o"][j][0].as_i64().unwrap_or(0), a["o"][j][1].as_str().unwrap_or(""));
+                let class = if is_call(cmd) {
+                    if text.starts_with('E') { text.to_string() } else { "ok".to_string() }
+                } else if st != 0 {
+                    "error".to_string()
+                } else if text == "?" {
+                    "prints (no canonical text)".to_string()
+                } else if text.is_empty() {
+                    "sets".to_string()
+                } else {
+                    "prints".to_string()
+                };
+                *kinds.entry(format!("{} {}", cmd[0], class)).or_default() += 1;
+            }
+        }
     }
     let seqs: Vec<Vec<Vec<String>>> = entries.iter().map(|(_, c)| w.iter().cloned().chain(c.iter().cloned()).chain(rb.iter().cloned()).collect()).collect();
     // observations per sequence
@@ -847,6 +873,9 @@ fn replay_state(sys: &str, plat: &Value, line: &Value, judge: &Mutex<Option<std:
     g.unspec += t.unspec;
     g.nontrivial += t.nontrivial;
     g.lost += t.lost;
+    for (k, n) in kinds {
+        *g.kinds.entry(k).or_default() += n;
+    }
     if g.samples.len() < 6 {
         g.samples.extend(t.samples);
     }
@@ -994,10 +1023,15 @@ fn random_sh_cmd(rng: &mut StdRng, sys: &str, sup: &[String]) -> Vec<String> {
 }
 
 fn random_call(rng: &mut StdRng, sys: &str) -> Vec<String> {
-    let l = pick(rng, &["n", "c", "f", "c", "n", "f", "t", "d", "k", "l"]).to_string();
+    // In the forked children of the calls child small values of -n -c -f are
+    // harmless (the result goes through a pipe that is already open); CPU and
+    // data limits would still kill the child: simulated system only.
+    let l = if sys == "real" {
+        pick(rng, &["n", "c", "f", "c", "n", "f", "l", "q", "k", "x", "m"]).to_string()
+    } else {
+        pick(rng, &["n", "c", "f", "c", "n", "f", "t", "d", "k", "l"]).to_string()
+    };
     let raw = |rng: &mut StdRng| -> String {
-        // in forked children of the calls child even small values are harmless
-        let _ = sys;
         pick(rng, &["0", "1", "5", "511", "512", "777", "1024", "4096", "100000", "inf", "inf", "18446744073709551614"]).to_string()
     };
     match rng.gen_range(0..10) {
